@@ -2360,14 +2360,17 @@ impl Write for SummaryStream {
          * Look for the last complete pkg_summary(5) record, if there are none
          * then go to the next input.
          */
-        let input_string = match std::str::from_utf8(&self.buf) {
-            Ok(s) => {
-                if let Some(last) = s.rfind("\n\n") {
-                    s.get(0..last + 2).unwrap()
-                } else {
-                    return Ok(input.len());
-                }
-            }
+        let Some(last) = self.buf.windows(2).rposition(|w| w == b"\n\n")
+        else {
+            return Ok(input.len());
+        };
+
+        /*
+         * Only the complete records need to be valid UTF-8 at this point, the
+         * remainder may end in the middle of a multi-byte character.
+         */
+        let input_string = match std::str::from_utf8(&self.buf[0..last + 2]) {
+            Ok(s) => s,
             Err(e) => {
                 return Err(io::Error::new(io::ErrorKind::InvalidData, e))
             }
